@@ -108,11 +108,11 @@ fn vdata_bytes(v: &VData) -> (Vec<u8>, Vec<u8>) {
 
 // ------------------------------------------------------------------------------------------ canonical rebuilds
 struct Canon {
-    leaf: VData,
+    leaf: Option<VData>,
     leaf_c: Vec<u8>,
     leaf_v: Vec<u8>,
-    /// private batch for n = 1, 2
-    pb: BTreeMap<usize, (VData, Vec<u8>, Vec<u8>)>,
+    /// private batch for n: (common, verifier-only) bytes
+    pb: BTreeMap<usize, (Vec<u8>, Vec<u8>)>,
     /// public batch for (m, n)
     pb_pub: BTreeMap<(usize, usize), (Vec<u8>, Vec<u8>)>,
 }
@@ -120,22 +120,50 @@ impl Canon {
     fn build(pb_ns: &[usize], pubs: &[(usize, usize)]) -> Self {
         let leaf = au::canonical_leaf_verifier_data();
         let (leaf_c, leaf_v) = vdata_bytes(&leaf);
-        let pb: BTreeMap<usize, (VData, Vec<u8>, Vec<u8>)> = pb_ns
-            .par_iter()
-            .map(|&n| {
-                let v = au::canonical_private_batch_verifier_data(&leaf, n).expect("canonical private batch");
-                let (c, vo) = vdata_bytes(&v);
-                (n, (v, c, vo))
-            })
-            .collect();
+        let pbd: BTreeMap<usize, VData> = pb_ns.par_iter().map(|&n| (n, au::canonical_private_batch_verifier_data(&leaf, n).expect("canonical private batch"))).collect();
+        let pb: BTreeMap<usize, (Vec<u8>, Vec<u8>)> = pbd.iter().map(|(n, v)| (*n, vdata_bytes(v))).collect();
         let pb_pub: BTreeMap<(usize, usize), (Vec<u8>, Vec<u8>)> = pubs
             .par_iter()
             .map(|&(m, n)| {
-                let v = au::canonical_public_batch_verifier_data(&pb[&n].0, m, n).expect("canonical public batch");
+                let v = au::canonical_public_batch_verifier_data(&pbd[&n], m, n).expect("canonical public batch");
                 ((m, n), vdata_bytes(&v))
             })
             .collect();
-        Canon { leaf, leaf_c, leaf_v, pb, pb_pub }
+        Canon { leaf: Some(leaf), leaf_c, leaf_v, pb, pb_pub }
+    }
+    /// the serialisations of this run's rebuild, for the strace children (which must not spend their time rebuilding)
+    fn save(&self, dir: &Path) {
+        std::fs::create_dir_all(dir).unwrap();
+        std::fs::write(dir.join("leaf_c"), &self.leaf_c).unwrap();
+        std::fs::write(dir.join("leaf_v"), &self.leaf_v).unwrap();
+        for (n, (c, v)) in &self.pb {
+            std::fs::write(dir.join(format!("pb_{n}_c")), c).unwrap();
+            std::fs::write(dir.join(format!("pb_{n}_v")), v).unwrap();
+        }
+        for ((m, n), (c, v)) in &self.pb_pub {
+            std::fs::write(dir.join(format!("pub_{m}_{n}_c")), c).unwrap();
+            std::fs::write(dir.join(format!("pub_{m}_{n}_v")), v).unwrap();
+        }
+    }
+    fn load(dir: &Path) -> Option<Self> {
+        let leaf_c = std::fs::read(dir.join("leaf_c")).ok()?;
+        let leaf_v = std::fs::read(dir.join("leaf_v")).ok()?;
+        let mut pb = BTreeMap::new();
+        let mut pb_pub = BTreeMap::new();
+        for e in std::fs::read_dir(dir).ok()? {
+            let name = e.ok()?.file_name().to_string_lossy().to_string();
+            let parts: Vec<&str> = name.split('_').collect();
+            if parts.len() == 3 && parts[0] == "pb" && parts[2] == "c" {
+                let n: usize = parts[1].parse().ok()?;
+                pb.insert(n, (std::fs::read(dir.join(&name)).ok()?, std::fs::read(dir.join(format!("pb_{n}_v"))).ok()?));
+            }
+            if parts.len() == 4 && parts[0] == "pub" && parts[3] == "c" {
+                let m: usize = parts[1].parse().ok()?;
+                let n: usize = parts[2].parse().ok()?;
+                pb_pub.insert((m, n), (std::fs::read(dir.join(&name)).ok()?, std::fs::read(dir.join(format!("pub_{m}_{n}_v"))).ok()?));
+            }
+        }
+        Some(Canon { leaf: None, leaf_c, leaf_v, pb, pb_pub })
     }
 }
 
@@ -149,11 +177,6 @@ fn mutants(r: &mut Rng, canon: &[u8], others: &[(&str, Vec<u8>)], flips: usize) 
     let n = canon.len();
     let mut v = Vec::new();
     let mut push = |tag: String, bytes: Vec<u8>| v.push(Mutant { tag, bytes });
-    for cut in [1usize, 2, 8, n / 2, n - 1, n] {
-        if cut <= n {
-            push(format!("trunc-{}", cut), canon[..n - cut].to_vec());
-        }
-    }
     for (t, ext) in [("ext-00", vec![0u8]), ("ext-ff", vec![0xff]), ("ext-8x00", vec![0u8; 8]), ("ext-self", canon.to_vec())] {
         let mut b = canon.to_vec();
         b.extend_from_slice(&ext);
@@ -182,6 +205,12 @@ fn mutants(r: &mut Rng, canon: &[u8], others: &[(&str, Vec<u8>)], flips: usize) 
         poisoned[i..i + 8].copy_from_slice(&(usize::MAX / 16).to_le_bytes());
     }
     push("poisoned-lengths".to_string(), poisoned);
+    // (truncations last: extensions and flips are the candidates a weakened pin would let through)
+    for cut in [1usize, 2, 8, n / 2, n - 1, n] {
+        if cut <= n {
+            push(format!("trunc-{}", cut), canon[..n - cut].to_vec());
+        }
+    }
     v
 }
 
@@ -322,7 +351,7 @@ fn describe_dir(dir: &Path, args: Vec<i128>, canon: &Canon, tpl: &Templates, n_f
     let m = m_for_refs.or_else(|| cfg_tok.get(1).map(|&x| x as usize));
     let mut segs: Vec<Seg> = vec![args, seg_bytes(&canon.leaf_c), seg_bytes(&canon.leaf_v)];
     match n.and_then(|n| canon.pb.get(&n)) {
-        Some((_, c, v)) => {
+        Some((c, v)) => {
             segs.push(seg_bytes(c));
             segs.push(seg_bytes(v));
         }
@@ -435,6 +464,19 @@ fn file_ops(name: &'static str, canon_bytes: &[u8], other: &[(&str, Vec<u8>)], c
     v
 }
 
+/// keep every cheap scenario (rejected at the file read: oversized / missing) and a seeded sample of `k` of the others
+/// (each of which makes the loader rebuild a recursive circuit)
+fn sample_heavy(all: &[(String, Vec<Op>)], k: usize, r: &mut Rng) -> Vec<(String, Vec<Op>)> {
+    let cheap = |t: &str| t.ends_with("oversized-sparse") || t.ends_with("missing");
+    let mut out: Vec<(String, Vec<Op>)> = all.iter().filter(|(t, _)| cheap(t)).cloned().collect();
+    let mut heavy: Vec<(String, Vec<Op>)> = all.iter().filter(|(t, _)| !cheap(t)).cloned().collect();
+    while !heavy.is_empty() && out.iter().filter(|(t, _)| !cheap(t)).count() < k {
+        let i = r.below(heavy.len() as u64) as usize;
+        out.push(heavy.swap_remove(i));
+    }
+    out
+}
+
 fn extras_ops(r: &mut Rng) -> Vec<Op> {
     let junk = |r: &mut Rng, n: usize| -> Vec<u8> { (0..n).map(|_| r.next() as u8).collect() };
     vec![
@@ -464,15 +506,17 @@ fn c17(keep: Option<PathBuf>) {
     // --- fresh rebuild of every canonical circuit, and of a full artifact directory (needed for the templates)
     let root = tmp_root("c17");
     let base = root.join("base");
-    let (canon, _) = rayon::join(|| Canon::build(&[1, 2], &[(1, 1), (2, 1)]), || gen_base(&base, 1, Some(1)));
+    let pb_ns: Vec<usize> = if thorough { vec![1, 2] } else { vec![1] };
+    let (canon, _) = rayon::join(|| Canon::build(&pb_ns, &[(1, 1), (2, 1)]), || gen_base(&base, 1, Some(1)));
+    let leaf_data = canon.leaf.as_ref().unwrap();
     notes.push(("c17".into(), format!("canonical rebuild + generated bins dir after {:?}", t0.elapsed())));
     let tpl = Templates { leaf: std::fs::read(base.join("dummy_proof.bin")).unwrap(), pb: std::fs::read(base.join("dummy_private_batch_proof.bin")).unwrap() };
     // the generated directory must hold exactly the canonical serialisations
     for (name, want) in [
         ("common.bin", &canon.leaf_c),
         ("verifier.bin", &canon.leaf_v),
-        ("private_batch_common.bin", &canon.pb[&1].1),
-        ("private_batch_verifier.bin", &canon.pb[&1].2),
+        ("private_batch_common.bin", &canon.pb[&1].0),
+        ("private_batch_verifier.bin", &canon.pb[&1].1),
         ("public_batch_common.bin", &canon.pb_pub[&(1, 1)].0),
         ("public_batch_verifier.bin", &canon.pb_pub[&(1, 1)].1),
     ] {
@@ -492,18 +536,25 @@ fn c17(keep: Option<PathBuf>) {
     // other-shape / other-config artifacts
     let zk_leaf = wormhole_circuit::circuit::circuit_logic::WormholeCircuit::new(CircuitConfig::standard_recursion_zk_config()).expect("zk leaf").build_verifier();
     let (zk_c, zk_v) = vdata_bytes(&zk_leaf);
-    let pb_other_cfg = wormhole_aggregator::private_batch::circuit::circuit_logic::PrivateBatchCircuit::new(wormhole_public_batch_circuit_config(), &canon.leaf.common, &canon.leaf.verifier_only, 1)
-        .expect("private batch with the public-batch config")
-        .build_verifier();
-    let (pbo_c, pbo_v) = vdata_bytes(&pb_other_cfg);
+    // private-batch artifacts of another shape (n = 2) and of another config; each costs a recursive-circuit build, so the
+    // quick tier substitutes the public-batch artifacts (another recursive circuit) for them
+    let alt_pb: Vec<(&str, Vec<u8>, Vec<u8>)> = if thorough {
+        let pb_other_cfg = wormhole_aggregator::private_batch::circuit::circuit_logic::PrivateBatchCircuit::new(wormhole_public_batch_circuit_config(), &leaf_data.common, &leaf_data.verifier_only, 1)
+            .expect("private batch with the public-batch config")
+            .build_verifier();
+        let (pbo_c, pbo_v) = vdata_bytes(&pb_other_cfg);
+        vec![("shape-n2", canon.pb[&2].0.clone(), canon.pb[&2].1.clone()), ("public-config", pbo_c, pbo_v)]
+    } else {
+        vec![("public-batch-artifact", canon.pb_pub[&(1, 1)].0.clone(), canon.pb_pub[&(1, 1)].1.clone())]
+    };
     let fake = test_helpers::fake_leaf::build_fake_leaf_circuit_data_only();
     let fake_v: VData = fake.verifier_data();
     let (fk_c, fk_v) = vdata_bytes(&fake_v);
     let flips = if thorough { 4000 } else { 120 };
 
     // --- 1701 / 1702 : verifier crate
-    let oc = [("zk-config", zk_c.clone()), ("fake-leaf", fk_c.clone()), ("pb-common", canon.pb[&1].1.clone()), ("leaf-vo", vc_v.clone())];
-    let ov = [("zk-config", zk_v.clone()), ("fake-leaf", fk_v.clone()), ("pb-vo", canon.pb[&1].2.clone()), ("leaf-common", vc_c.clone())];
+    let oc = [("zk-config", zk_c.clone()), ("fake-leaf", fk_c.clone()), ("pb-common", canon.pb[&1].0.clone()), ("leaf-vo", vc_v.clone())];
+    let ov = [("zk-config", zk_v.clone()), ("fake-leaf", fk_v.clone()), ("pb-vo", canon.pb[&1].1.clone()), ("leaf-common", vc_c.clone())];
     let cands = pair_candidates(&mut r, &vc_c, &vc_v, &oc, &ov, flips);
     for (tag, c, v) in &cands {
         let out = cls17(no_panic(|| WormholeVerifier::new_from_bytes(v, c)));
@@ -571,8 +622,8 @@ fn c17(keep: Option<PathBuf>) {
     }
 
     // --- 1703: aggregator leaf pin (every call rebuilds the leaf circuit)
-    let oc = [("zk-config", zk_c.clone()), ("fake-leaf", fk_c.clone()), ("pb-common", canon.pb[&1].1.clone())];
-    let ov = [("zk-config", zk_v.clone()), ("fake-leaf", fk_v.clone()), ("pb-vo", canon.pb[&1].2.clone())];
+    let oc = [("zk-config", zk_c.clone()), ("fake-leaf", fk_c.clone()), ("pb-common", canon.pb[&1].0.clone())];
+    let ov = [("zk-config", zk_v.clone()), ("fake-leaf", fk_v.clone()), ("pb-vo", canon.pb[&1].1.clone())];
     let cands = pair_candidates(&mut r, &canon.leaf_c, &canon.leaf_v, &oc, &ov, if thorough { 4000 } else { 40 });
     let outs: Vec<Vec<i128>> = cands.par_iter().map(|(_, c, v)| cls17(no_panic(|| au::load_canonical_leaf_verifier_data(c, v)))).collect();
     for ((tag, c, v), out) in cands.iter().zip(outs) {
@@ -580,29 +631,33 @@ fn c17(keep: Option<PathBuf>) {
     }
     // --- 1704: aggregator private-batch pin (every call rebuilds the private-batch circuit)
     {
-        let (_, c1, v1) = &canon.pb[&1];
-        let (_, c2, v2) = &canon.pb[&2];
-        let oc = [("shape-n2", c2.clone()), ("public-config", pbo_c.clone()), ("leaf-common", canon.leaf_c.clone()), ("public-batch", canon.pb_pub[&(1, 1)].0.clone())];
-        let ov = [("shape-n2", v2.clone()), ("public-config", pbo_v.clone()), ("leaf-vo", canon.leaf_v.clone()), ("public-batch", canon.pb_pub[&(1, 1)].1.clone())];
+        let (c1, v1) = &canon.pb[&1];
+        let mut oc: Vec<(&str, Vec<u8>)> = alt_pb.iter().map(|(t, c, _)| (*t, c.clone())).collect();
+        let mut ov: Vec<(&str, Vec<u8>)> = alt_pb.iter().map(|(t, _, v)| (*t, v.clone())).collect();
+        oc.push(("leaf-common", canon.leaf_c.clone()));
+        ov.push(("leaf-vo", canon.leaf_v.clone()));
         let mut cands: Vec<(String, Vec<u8>, Vec<u8>, usize)> = pair_candidates(&mut r, c1, v1, &oc, &ov, if thorough { 200 } else { 1 }).into_iter().map(|(t, c, v)| (t, c, v, 1usize)).collect();
         if !thorough {
-            // every call rebuilds the private-batch circuit (seconds): keep one candidate per mutation kind and side
-            let mut seen = std::collections::BTreeSet::new();
-            cands.retain(|(t, _, _, _)| {
-                let kind: String = t.split('-').next().unwrap().to_string();
-                let keep = ["common:trunc", "vo:trunc", "common:ext", "vo:ext", "common:bitflip", "vo:bitflip", "common:other", "vo:other", "canonical", "swapped", "common:poisoned"].contains(&kind.as_str());
-                keep && seen.insert(kind)
-            });
+            // every call rebuilds the private-batch circuit (tens of CPU-seconds): the canonical pair and a seeded sample of 3
+            let canonical = cands.remove(0);
+            let mut keep = vec![canonical];
+            for _ in 0..3 {
+                let i = r.below(cands.len() as u64) as usize;
+                keep.push(cands.swap_remove(i));
+            }
+            cands = keep;
+        } else {
+            let (c2, v2) = &canon.pb[&2];
+            cands.push(("n2:canonical".into(), c2.clone(), v2.clone(), 2));
+            cands.push(("n2:artifacts-of-n1".into(), c1.clone(), v1.clone(), 2));
+            cands.push(("n1:artifacts-of-n2".into(), c2.clone(), v2.clone(), 1));
         }
-        cands.push(("n2:canonical".into(), c2.clone(), v2.clone(), 2));
-        cands.push(("n2:artifacts-of-n1".into(), c1.clone(), v1.clone(), 2));
-        cands.push(("n1:artifacts-of-n2".into(), c2.clone(), v2.clone(), 1));
         cands.push(("n0".into(), c1.clone(), v1.clone(), 0));
         cands.push(("n65".into(), c1.clone(), v1.clone(), 65));
-        let outs: Vec<Vec<i128>> = cands.par_iter().map(|(_, c, v, n)| cls17(no_panic(|| au::load_canonical_private_batch_verifier_data(c, v, &canon.leaf, *n)))).collect();
+        let outs: Vec<Vec<i128>> = cands.par_iter().map(|(_, c, v, n)| cls17(no_panic(|| au::load_canonical_private_batch_verifier_data(c, v, leaf_data, *n)))).collect();
         for ((tag, c, v, n), out) in cands.iter().zip(outs) {
             let (rc, rv) = match canon.pb.get(n) {
-                Some((_, a, b)) => (seg_bytes(a), seg_bytes(b)),
+                Some((a, b)) => (seg_bytes(a), seg_bytes(b)),
                 None => (vec![], vec![]),
             };
             cases.push((1704, tag.clone(), vec![seg_bytes(c), seg_bytes(v), vec![*n as i128], rc, rv], out));
@@ -614,7 +669,7 @@ fn c17(keep: Option<PathBuf>) {
     let cap = au::MAX_ARTIFACT_FILE_BYTES;
     let mut scen: Vec<Scenario> = Vec::new();
     let nf = if thorough { 12 } else { 2 };
-    let nh = if thorough { 6 } else { 1 };
+    let nh = if thorough { 6 } else { 2 };
     let cfg_json = |n: usize, m: Option<usize>| -> Vec<u8> {
         match m {
             Some(m) => format!("{{\"num_leaf_proofs\": {n}, \"num_private_batch_proofs\": {m}}}").into_bytes(),
@@ -622,21 +677,20 @@ fn c17(keep: Option<PathBuf>) {
         }
     };
     {
-        let (_, c1, v1) = &canon.pb[&1];
-        let (_, c2, v2) = &canon.pb[&2];
+        let (c1, v1) = &canon.pb[&1];
         let (pc, pv) = &canon.pb_pub[&(1, 1)];
         let (pc2, pv2) = &canon.pb_pub[&(2, 1)];
         let leaf_files: Vec<(String, Vec<Op>)> = file_ops("common.bin", &canon.leaf_c, &[("zk-config", zk_c.clone()), ("fake-leaf", fk_c.clone())], cap, &mut r, nf, false)
             .into_iter()
             .chain(file_ops("verifier.bin", &canon.leaf_v, &[("zk-config", zk_v.clone()), ("fake-leaf", fk_v.clone())], cap, &mut r, nf, false))
             .collect();
-        let pb_files: Vec<(String, Vec<Op>)> = file_ops("private_batch_common.bin", c1, &[("shape-n2", c2.clone()), ("public-config", pbo_c.clone())], cap, &mut r, nh, !thorough)
+        let pb_files: Vec<(String, Vec<Op>)> = file_ops("private_batch_common.bin", c1, &alt_pb.iter().map(|(t, c, _)| (*t, c.clone())).collect::<Vec<_>>(), cap, &mut r, nh, false)
             .into_iter()
-            .chain(file_ops("private_batch_verifier.bin", v1, &[("shape-n2", v2.clone()), ("public-config", pbo_v.clone())], cap, &mut r, nh, !thorough))
+            .chain(file_ops("private_batch_verifier.bin", v1, &alt_pb.iter().map(|(t, _, v)| (*t, v.clone())).collect::<Vec<_>>(), cap, &mut r, nh, false))
             .collect();
-        let pub_files: Vec<(String, Vec<Op>)> = file_ops("public_batch_common.bin", pc, &[("shape-m2", pc2.clone()), ("private-batch", c1.clone())], cap, &mut r, nh + 1, !thorough)
+        let pub_files: Vec<(String, Vec<Op>)> = file_ops("public_batch_common.bin", pc, &[("shape-m2", pc2.clone()), ("private-batch", c1.clone())], cap, &mut r, nh + 1, false)
             .into_iter()
-            .chain(file_ops("public_batch_verifier.bin", pv, &[("shape-m2", pv2.clone()), ("private-batch", v1.clone())], cap, &mut r, nh + 1, !thorough))
+            .chain(file_ops("public_batch_verifier.bin", pv, &[("shape-m2", pv2.clone()), ("private-batch", v1.clone())], cap, &mut r, nh + 1, false))
             .collect();
         let cfg_ops: Vec<(String, Vec<Op>)> = vec![
             ("config:missing".into(), vec![Op::Remove("config.json")]),
@@ -647,35 +701,51 @@ fn c17(keep: Option<PathBuf>) {
         ];
         let mut add = |which: usize, tag: String, ops: Vec<Op>, args: Vec<i128>| scen.push(Scenario { which, tag, ops, args });
         // 0: PrivateBatchProver
-        add(0, "canonical".into(), vec![], vec![]);
-        add(0, "canonical+extras+bogus-prover-bins".into(), extras_ops(&mut r), vec![]);
-        add(0, "config:n2-with-leaf-artifacts".into(), vec![Op::Set("config.json", cfg_json(2, None))], vec![]);
-        add(0, "template:garbage".into(), vec![Op::Set("dummy_proof.bin", vec![7u8; 1000])], vec![]);
+        if thorough {
+            add(0, "canonical".into(), vec![], vec![]);
+        }
+        // (quick: the accepting runs of the three prover loaders happen in the strace step, on directories with planted
+        // prover artifacts and extra files)
+        if thorough {
+            add(0, "canonical+extras+bogus-prover-bins".into(), extras_ops(&mut r), vec![]);
+            add(0, "config:n2-with-leaf-artifacts".into(), vec![Op::Set("config.json", cfg_json(2, None))], vec![]);
+            add(0, "template:garbage".into(), vec![Op::Set("dummy_proof.bin", vec![7u8; 1000])], vec![]);
+        }
         add(0, "template:oversized-sparse".into(), vec![Op::Sparse("dummy_proof.bin", cap + 1)], vec![]);
         for (t, o) in leaf_files.iter().chain(cfg_ops.iter()) {
             add(0, t.clone(), o.clone(), vec![]);
         }
         // 1: PublicBatchProver
-        add(1, "canonical+extras+bogus-prover-bins".into(), extras_ops(&mut r), vec![]);
+        if thorough {
+            add(1, "canonical+extras+bogus-prover-bins".into(), extras_ops(&mut r), vec![]);
+        }
         add(1, "config:no-private-batch-count".into(), vec![Op::Set("config.json", cfg_json(1, None))], vec![]);
-        add(1, "config:n2-with-n1-artifacts".into(), vec![Op::Set("config.json", cfg_json(2, Some(1)))], vec![]);
-        add(1, "template:garbage".into(), vec![Op::Set("dummy_private_batch_proof.bin", vec![7u8; 1000])], vec![]);
-        for (t, o) in pb_files.iter().chain(cfg_ops.iter()) {
+        if thorough {
+            add(1, "config:n2-with-n1-artifacts".into(), vec![Op::Set("config.json", cfg_json(2, Some(1)))], vec![]);
+            add(1, "template:garbage".into(), vec![Op::Set("dummy_private_batch_proof.bin", vec![7u8; 1000])], vec![]);
+        }
+        for (t, o) in sample_heavy(&pb_files, if thorough { usize::MAX } else { 1 }, &mut r).iter().chain(cfg_ops.iter()) {
             add(1, t.clone(), o.clone(), vec![]);
         }
         // 2: PublicBatchAggregator
-        add(2, "canonical".into(), vec![], vec![]);
-        add(2, "canonical+extras+bogus-prover-bins".into(), extras_ops(&mut r), vec![]);
-        add(2, "config:m2-with-m1-artifacts".into(), vec![Op::Set("config.json", cfg_json(1, Some(2)))], vec![]);
+        if thorough {
+            add(2, "canonical".into(), vec![], vec![]);
+            add(2, "config:m2-with-m1-artifacts".into(), vec![Op::Set("config.json", cfg_json(1, Some(2)))], vec![]);
+        }
+        if thorough {
+            add(2, "canonical+extras+bogus-prover-bins".into(), extras_ops(&mut r), vec![]);
+            add(2, "template:garbage".into(), vec![Op::Set("dummy_private_batch_proof.bin", vec![7u8; 1000])], vec![]);
+            add(2, "template:oversized-sparse".into(), vec![Op::Sparse("dummy_private_batch_proof.bin", cap + 1)], vec![]);
+            add(2, "leaf-artifacts-garbage(unused)".into(), vec![Op::Set("common.bin", vec![1, 2, 3]), Op::Remove("verifier.bin")], vec![]);
+        }
         add(2, "config:no-private-batch-count".into(), vec![Op::Set("config.json", cfg_json(1, None))], vec![]);
-        add(2, "template:garbage".into(), vec![Op::Set("dummy_private_batch_proof.bin", vec![7u8; 1000])], vec![]);
-        add(2, "template:oversized-sparse".into(), vec![Op::Sparse("dummy_private_batch_proof.bin", cap + 1)], vec![]);
-        add(2, "leaf-artifacts-garbage(unused)".into(), vec![Op::Set("common.bin", vec![1, 2, 3]), Op::Remove("verifier.bin")], vec![]);
-        for (t, o) in pb_files.iter().chain(pub_files.iter()).chain(cfg_ops.iter()) {
+        for (t, o) in sample_heavy(&pb_files, if thorough { usize::MAX } else { 0 }, &mut r).iter().chain(sample_heavy(&pub_files, if thorough { usize::MAX } else { 2 }, &mut r).iter()).chain(cfg_ops.iter()) {
             add(2, t.clone(), o.clone(), vec![]);
         }
         // 3: generate_private_batch_circuit_binaries(dir, n, false)
-        add(3, "canonical".into(), vec![], vec![1]);
+        if thorough {
+            add(3, "canonical".into(), vec![], vec![1]);
+        }
         add(3, "canonical+extras".into(), extras_ops(&mut r), vec![1]);
         add(3, "n0".into(), vec![], vec![0]);
         add(3, "n65".into(), vec![], vec![65]);
@@ -684,10 +754,12 @@ fn c17(keep: Option<PathBuf>) {
         }
         // 4: generate_public_batch_circuit_binaries(dir, m, n)
         add(4, "canonical".into(), vec![], vec![1, 1]);
-        add(4, "n2-with-n1-artifacts".into(), vec![], vec![1, 2]);
+        if thorough {
+            add(4, "n2-with-n1-artifacts".into(), vec![], vec![1, 2]);
+        }
         add(4, "m0".into(), vec![], vec![0, 1]);
         add(4, "m65".into(), vec![], vec![65, 1]);
-        for (t, o) in pb_files.iter() {
+        for (t, o) in sample_heavy(&pb_files, if thorough { usize::MAX } else { 1 }, &mut r).iter() {
             add(4, t.clone(), o.clone(), vec![1, 1]);
         }
     }
@@ -717,6 +789,7 @@ fn c17(keep: Option<PathBuf>) {
     if let Some(keep) = keep {
         let _ = std::fs::remove_dir_all(&keep);
         std::fs::create_dir_all(&keep).unwrap();
+        canon.save(&keep.join("canon"));
         let t1 = keep.join("full");
         copy_dir(&base, &t1);
         apply(&t1, &extras_ops(&mut r));
@@ -762,10 +835,13 @@ fn trace(which: usize, dir: &Path) {
             let cfg = std::fs::metadata(dir.join("config.json")).ok().filter(|m| m.len() < BIG).map(|_| config_token(&std::fs::read(dir.join("config.json")).unwrap())).unwrap_or_default();
             let n = cfg.first().map(|&x| x as usize).unwrap_or(1);
             let m = cfg.get(1).map(|&x| x as usize).unwrap_or(1);
-            let canon = match which {
-                0 => Canon::build(&[], &[]),
-                1 => Canon::build(&[n], &[]),
-                _ => Canon::build(&[n], &[(m, n)]),
+            let canon = match dir.parent().and_then(|p| Canon::load(&p.join("canon"))) {
+                Some(c) => c,
+                None => match which {
+                    0 => Canon::build(&[], &[]),
+                    1 => Canon::build(&[n], &[]),
+                    _ => Canon::build(&[n], &[(m, n)]),
+                },
             };
             // the templates of a freshly generated directory are not at hand here: a template counts as "the" template
             // when it deserialises and verifies, which is what the token stands for
@@ -879,45 +955,74 @@ fn c18() {
         addrs.push([P - 1, P - 1, P - 1, P - 1]);
         addrs.push(rand_addr(&mut r));
     }
-    // contexts that never prove (only verify)
+    // contexts that never prove (only verify); every context costs a full PublicBatchAggregator::new (two recursive
+    // circuit rebuilds), so the quick tier keeps one: the seeded address with its last limb + 1
     let mut ctx_addrs = addrs.clone();
-    ctx_addrs.push([0x0202020202020202; 4]);
     {
         let mut a = addrs[1];
         a[3] = (a[3] + 1) % P;
         ctx_addrs.push(a);
-        let mut b = addrs[1];
-        b[0] ^= 1;
-        ctx_addrs.push(b);
+        if thorough {
+            ctx_addrs.push([0x0202020202020202; 4]);
+            let mut b = addrs[1];
+            b[0] ^= 1;
+            ctx_addrs.push(b);
+        }
     }
 
-    // --- 1802: prove_batch under each proving address
-    let mut proofs: Vec<([u64; 4], Proof)> = Vec::new();
-    let produced: Vec<(usize, Option<anyhow::Result<Proof>>)> = addrs
-        .par_iter()
-        .enumerate()
-        .map(|(i, a)| {
-            let agg = PublicBatchAggregator::new(&dir, address(*a)).expect("aggregator");
-            (i, no_panic(|| agg.proving_context().prove_batch(vec![pb_proof.clone()])))
-        })
-        .collect();
+    // --- the public-batch proofs, produced INDEPENDENTLY of ProvingContext::prove_batch: the canonical public-batch
+    // circuit, the private-batch proof in its slot, the address targets set (what the circuit then exposes is its own doing)
+    let proofs: Vec<([u64; 4], Proof)> = {
+        use plonky2::iop::witness::{PartialWitness, WitnessWrite};
+        let c = wormhole_aggregator::public_batch::circuit::PublicBatchCircuit::new(wormhole_public_batch_circuit_config(), pbv.common.clone(), &pbv.verifier_only, 1, 1).expect("public batch circuit");
+        let targets = c.targets();
+        let data = c.build_circuit();
+        addrs
+            .par_iter()
+            .map(|a| {
+                let mut pw = PartialWitness::new();
+                pw.set_proof_with_pis_target(&targets.private_batch_proofs[0], &pb_proof).expect("set proof");
+                for (t, v) in targets.aggregator_address.iter().zip(a) {
+                    pw.set_target(*t, F::from_canonical_u64(*v)).expect("set address");
+                }
+                let p = data.prove(pw).expect("independent public-batch prove");
+                (*a, p)
+            })
+            .collect()
+    };
+    for (_, p) in &proofs {
+        assert!(verifies(p), "independently produced public-batch proof does not verify under the canonical verifier");
+    }
+    notes.push(("c18".into(), format!("{} independent public-batch proofs after {:?}", proofs.len(), t0.elapsed())));
+
+    // --- 1802: prove_batch under each proving address.  The model is told what an honest production yields (the
+    // independent proof's public inputs and verdict); whatever the implementation returns is also put through the model.
+    let aggs: Vec<PublicBatchAggregator> = ctx_addrs.par_iter().map(|a| PublicBatchAggregator::new(&dir, address(*a)).expect("aggregator")).collect();
+    notes.push(("c18".into(), format!("{} aggregators loaded after {:?}", aggs.len(), t0.elapsed())));
+    let produced: Vec<(usize, Option<anyhow::Result<Proof>>)> =
+        (0..addrs.len()).into_par_iter().map(|i| (i, no_panic(|| aggs[i].proving_context().prove_batch(vec![pb_proof.clone()])))).collect();
     for (i, res) in produced {
         let a = addrs[i];
+        let ind = &proofs[i].1;
+        let honest = vec![vec![expected_len as i128], seg_u64(&a), vec![1], seg_u64(&canon_pis(ind)), vec![verifies(ind) as i128]];
         match res {
-            None => cases.push((1802, "prove_batch".into(), vec![vec![expected_len as i128], seg_u64(&a), vec![0], vec![], vec![0]], vec![-1])),
+            None => cases.push((1802, "prove_batch".into(), honest, vec![-1])),
             Some(Err(e)) => {
                 notes.push(("prove_batch-error".into(), format!("{e:#}")));
-                cases.push((1802, "prove_batch".into(), vec![vec![expected_len as i128], seg_u64(&a), vec![0], vec![], vec![0]], vec![0]));
+                cases.push((1802, "prove_batch".into(), honest, vec![0]));
             }
             Some(Ok(p)) => {
-                cases.push((1802, "prove_batch".into(), vec![vec![expected_len as i128], seg_u64(&a), vec![1], seg_u64(&canon_pis(&p)), vec![verifies(&p) as i128]], vec![1]));
-                proofs.push((a, p));
+                cases.push((1802, "prove_batch".into(), honest, vec![1]));
+                if canon_pis(&p) != canon_pis(ind) {
+                    notes.push(("prove_batch".into(), "returned public inputs differ from the independently produced proof's".into()));
+                }
+                cases.push((1802, "prove_batch:returned-proof".into(), vec![vec![expected_len as i128], seg_u64(&a), vec![1], seg_u64(&canon_pis(&p)), vec![verifies(&p) as i128]], vec![1]));
             }
         }
     }
     // rejected inputs of prove_batch: nothing is returned
     {
-        let agg = PublicBatchAggregator::new(&dir, address(addrs[0])).expect("aggregator");
+        let agg = &aggs[0];
         for (tag, v) in [("prove_batch:empty", vec![]), ("prove_batch:too-many", vec![pb_proof.clone(), pb_proof.clone()])] {
             let res = no_panic(|| agg.prove_batch(v));
             let out = match res {
@@ -928,12 +1033,12 @@ fn c18() {
             cases.push((1802, tag.into(), vec![vec![expected_len as i128], seg_u64(&addrs[0]), vec![0], vec![], vec![0]], out));
         }
     }
-    notes.push(("c18".into(), format!("{} public-batch proofs after {:?}", proofs.len(), t0.elapsed())));
+    notes.push(("c18".into(), format!("prove_batch runs done after {:?}", t0.elapsed())));
 
     // --- 1801: verify, every context x every proof variant
-    let mut variants: Vec<(String, Proof)> = Vec::new();
+    // (the untouched valid proofs first: a context accepting the valid proof of ANOTHER address is the headline case)
+    let mut variants: Vec<(String, Proof)> = proofs.iter().enumerate().map(|(i, (_, p))| (format!("valid-proof-of-addr{i}"), p.clone())).collect();
     for (i, (a, p)) in proofs.iter().enumerate() {
-        variants.push((format!("valid-proof-of-addr{i}"), p.clone()));
         // same field elements, non-canonical representation of the address limbs (where it fits in a u64)
         let mut q = p.clone();
         for k in 0..4 {
@@ -994,7 +1099,7 @@ fn c18() {
         variants.push(("private-batch-proof-with-address".into(), q));
     }
     for (j, ca) in ctx_addrs.iter().enumerate() {
-        let agg = PublicBatchAggregator::new(&dir, address(*ca)).expect("aggregator ctx");
+        let agg = &aggs[j];
         let ctx = agg.proving_context();
         for (tag, q) in &variants {
             let out = cls18(no_panic(|| ctx.verify(q.clone())));
@@ -1018,6 +1123,17 @@ fn main() {
         Some("c17") => c17(a.get(2).map(PathBuf::from)),
         Some("c18") => c18(),
         Some("probe-slice") => probe_slice(a[2].parse().unwrap()),
+        Some("bench") => {
+            let t = std::time::Instant::now();
+            let leaf = au::canonical_leaf_verifier_data();
+            eprintln!("leaf build {:?}", t.elapsed());
+            let t = std::time::Instant::now();
+            let pb = au::canonical_private_batch_verifier_data(&leaf, 1).unwrap();
+            eprintln!("private batch (n=1) build {:?}", t.elapsed());
+            let t = std::time::Instant::now();
+            let _ = au::canonical_public_batch_verifier_data(&pb, 1, 1).unwrap();
+            eprintln!("public batch (1,1) build {:?}", t.elapsed());
+        }
         Some("trace") => trace(a[2].parse().unwrap(), Path::new(&a[3])),
         _ => {
             eprintln!("usage: loaders c17 [keep-dir] | c18 | probe-slice <0|1> | trace <which> <dir>");
